@@ -1,6 +1,7 @@
 package client
 
 import (
+	"io"
 	"context"
 	"encoding/hex"
 	"encoding/json"
@@ -178,7 +179,13 @@ type c12Case struct {
 	Reregistered bool `json:"operation_reregistered,omitempty"`
 	// OnBatchErr (call Batch): the batch is sent with BatchOpt and OnBatchErr(continue | stop | undo); "" = plain Batch
 	OnBatchErr string `json:"on_batch_error_option,omitempty"`
+	// Debug: the client carries kmipclient.DebugMiddleware (as nearly every example and test of the library does); what it
+	// logs does not change what the calls return
+	Debug bool `json:"debug_middleware_installed,omitempty"`
 }
+
+// c12Debug: the case in progress asks for the debug middleware (one case at a time per process).
+var c12Debug bool
 
 // altActivateResp is what an application might register for Activate in place of the library's response payload.
 type altActivateResp struct {
@@ -415,11 +422,16 @@ func newScriptedClient(ver kmip.ProtocolVersion, srv *rawServer, enforce bool) (
 	if enforce {
 		opts = append(opts, kmipclient.EnforceVersion(ver))
 	}
+	if c12Debug {
+		opts = append(opts, kmipclient.WithMiddlewares(kmipclient.DebugMiddleware(io.Discard, nil)))
+	}
 	cl, err := kmipclient.Dial("verif", opts...)
 	return cl, conns, err
 }
 
 func c12Run(c c12Case) (sig string, err error) {
+	c12Debug = c.Debug
+	defer func() { c12Debug = false }()
 	var call apiCall
 	for _, a := range apiCalls {
 		if a.Name == c.Call {
@@ -699,6 +711,7 @@ func TestC12Responses(t *testing.T) {
 	}
 	rapid.Check(t, func(rt *rapid.T) {
 		c := c12Case{Call: rapid.SampledFrom(names).Draw(rt, "call"), Version: rapid.SampledFrom(gen.Versions).Draw(rt, "version").String()}
+		c.Debug = rapid.IntRange(0, 2).Draw(rt, "debug") == 0
 		if c.Call == "Activate" {
 			c.Reregistered = rapid.IntRange(0, 2).Draw(rt, "reregistered") == 0
 		}
